@@ -214,7 +214,7 @@ ALPHABET = [-8, -1, 0, 1, 7]          # SecInt(4) range extremes and neighbours 
 
 def plan(prop, tier, seed):
     jobs = []
-    core = [(1, 0), (2, 0), (3, 1), (4, 1), (5, 2)] if tier == 'thorough' else [(2, 0), (3, 1), (5, 2)]
+    core = [(1, 0), (2, 0), (3, 1), (4, 1), (5, 2)] if tier == 'thorough' else [(2, 0), (3, 1), (4, 1), (5, 2)]    # (4,1): m > 2t+1
     if prop == 'C14':
         core = [c for c in core if c[1] >= 1] + ([(3, 0)] if tier == 'thorough' else [])
     for (m, t) in core:
@@ -223,7 +223,7 @@ def plan(prop, tier, seed):
                 pairs = [(0, 0)] if name == 'random' else list(itertools.product(ALPHABET, repeat=2))
                 if name == 'fxpconv':
                     pairs = [(a, b) for a in (-8, -3, 0, 5, 7) for b in (-4, -1, 0, 3)]
-                if tier == 'quick' and m == 5:
+                if tier == 'quick' and m >= 4:
                     pairs = pairs[::4]
                 chunk = 5 if m <= 3 else 2
                 for k in range(0, len(pairs), chunk):
